@@ -574,11 +574,37 @@ func runInBubble(cfg harness.Config, idx int, tp *tape.Tape, dir string, res *ha
 
 	imgbundler.VerifResetCache()
 	imgbundler.VerifSetTransport(transport{w})
-	verifhook.YieldFn = func(point string, arg any) { sim.Yield(point + ":" + fmt.Sprint(arg)) }
+	// A worker is known by the href it works on (its goroutine id depends on how many
+	// goroutines libraries happened to start lazily in this process before).
+	var nameMu sync.Mutex
+	gname := map[uint64]string{}
+	verifhook.YieldFn = func(point string, arg any) {
+		if point == "worker.start" {
+			nameMu.Lock()
+			gname[runtime.VerifGID()] = fmt.Sprint(arg)
+			nameMu.Unlock()
+		}
+		sim.Yield(point + ":" + fmt.Sprint(arg))
+	}
 	verifhook.TraceFn = nil
 	fs := &simfs.FS{Root: dir, Handler: w.fsHandler}
 	simfs.Install(fs)
+	// imgbundler's own mutexes are the simulator's (sched.MutexSim): a worker can lose the
+	// CPU right before it takes the error-list mutex and while it waits for it.
+	msim := &sched.MutexSim{Sim: sim, Name: func() string {
+		nameMu.Lock()
+		defer nameMu.Unlock()
+		if n, ok := gname[runtime.VerifGID()]; ok {
+			return n
+		}
+		return "caller"
+	}}
+	uninstallMutexes := msim.Install()
+	sim.ClassWeight["lk"] = 1 + tp.Draw(12, "cfg.w.lock")
+	sim.ClassWeight["lw"] = 1
 	defer func() {
+		uninstallMutexes()
+		res.ProbeN("imgbundler_mutex_lock_attempts_scheduled", int(msim.Attempts.Load()))
 		simfs.Uninstall()
 		verifhook.YieldFn = nil
 		imgbundler.VerifSetTransport(nil)
